@@ -188,9 +188,6 @@ class FunctorPool:
             self.pool = pool
 
         def run(self) -> None:
-            self.pool._sending_work = True
-            self.pool._data_cnt = 0
-
             def chunking(d):
                 ch = []
                 for x in d:
@@ -209,6 +206,11 @@ class FunctorPool:
                 self.run_event.wait()
 
             self.pool._sending_work = False
+            # wake up the consumer, it may be waiting for a result that will never come
+            try:
+                self.pool._results_queue.put(None, block=False)
+            except queue.Full:
+                pass  # there is something in the queue that wakes it up anyway
 
     def __init__(self, workers: List[BaseFunctorWorker[T, R]], context: Optional[BaseContext] = None,
                  work_queue_maxsize: Optional[Union[int, float]] = 1.0,
@@ -304,6 +306,7 @@ class FunctorPool:
         :return: tuple of list of indexes and list of results
         """
 
+        woken = False
         if self._results_queue.qsize() > 0:
             chunks = []
             indexes = []
@@ -311,17 +314,23 @@ class FunctorPool:
             with self._results_queue_lock:
                 try:
                     while self._results_queue.qsize() > 0:
-                        res_i, res_chunk = self._results_queue.get(block=False)
-                        chunks.append(res_chunk)
-                        indexes.append(res_i)
+                        res = self._results_queue.get(block=False)
+                        if res is None:
+                            # wake-up token
+                            woken = True
+                            continue
+                        chunks.append(res[1])
+                        indexes.append(res[0])
                 except queue.Empty:
                     ...
 
-            if len(chunks) > 0:
+            if len(chunks) > 0 or woken:
                 return indexes, chunks
 
-        res_i, res_chunk = self._results_queue.get()
-        return [res_i], [res_chunk]
+        res = self._results_queue.get()
+        if res is None:
+            return [], []
+        return [res[0]], [res[1]]
 
     def imap(self, data: Iterable[T], chunk_size: int = 1) -> Generator[R, None, None]:
         """
@@ -335,6 +344,8 @@ class FunctorPool:
 
         buffer = Buffer()
         finished_cnt = 0
+        self._sending_work = True
+        self._data_cnt = 0
 
         with self.SendWorkThread(self, data, chunk_size) as send_thread:
             while self._sending_work or finished_cnt < self._data_cnt:
@@ -361,6 +372,8 @@ class FunctorPool:
         :return: generator of results
         """
         finished_cnt = 0
+        self._sending_work = True
+        self._data_cnt = 0
 
         with self.SendWorkThread(self, data, chunk_size):
             while self._sending_work or finished_cnt < self._data_cnt:
@@ -406,7 +419,7 @@ class FactoryFunctorPool(FunctorPool):
             self.verbose = verbose
 
         def run(self) -> None:
-            while not self.stop_event.is_set():
+            while True:
                 replace_id = self.pool._replace_queue.get()
                 if replace_id is None:
                     break
